@@ -467,7 +467,7 @@ def _range_subset(i, o):
     return ol <= il and ih <= oh
 
 
-def converter_lattice(repo, col):
+def converter_lattice(repo, col, in_types=None):
     rule = "E-DTYPE"
     outer = repo.func("data_types", "get_chunk_dtype_transformer")
     inner = repo.func("data_types",
@@ -480,7 +480,8 @@ def converter_lattice(repo, col):
     fails = {}
     undec = []
     n_pairs = 0
-    for i in IN_TYPES:
+    in_list = list(in_types or IN_TYPES)
+    for i in in_list:
         for o in OUT_TYPES:
             n_pairs += 1
             interp = Interp(outer.module)
@@ -555,7 +556,7 @@ def converter_lattice(repo, col):
     bad_pairs = set()
     for (what, construct), who in fails.items():
         bad_pairs.add(construct)
-    for i in IN_TYPES:
+    for i in in_list:
         for o in OUT_TYPES:
             nm = "%s->%s" % (LONG[i], LONG[o])
             if any(nm == u[0] for u in undec):
